@@ -154,8 +154,8 @@ def patch_action(rng, p):
 def expect_action(rng, tok, feats):
     details = []
     if "mismatch_details" in feats:
-        for _ in range(rng.randint(0, 2)):
-            name = rng.choice(["foo", "traceback", "Failed expectation", "mm", "foo-1"])
+        for name in rng.sample(["foo", "traceback", "Failed expectation", "mm", "foo-1"],
+                               rng.randint(0, 2)):
             details.append([name, tok("D").encode().hex()])
     ok = rng.random() < 0.35
     return [rng.choice(["expect", "expect", "assert"]), tok("E"), ok, details]
@@ -191,9 +191,8 @@ def detail_action(rng, tok, feats):
 
 def fixture_spec(rng, tok, depth=0):
     spec = {"details": [], "setup": "ok", "cleanup": "ok"}
-    for _ in range(rng.randint(0, 2)):
-        spec["details"].append([rng.choice(["foo", "fx", "traceback", "log", "foo-1"]),
-                                tok("F").encode().hex()])
+    for name in rng.sample(["foo", "fx", "traceback", "log", "foo-1"], rng.randint(0, 2)):
+        spec["details"].append([name, tok("F").encode().hex()])
     r = rng.random()
     if r < 0.2:
         spec["setup"] = rng.choice(["error", "fail", "kbd"])
